@@ -1247,9 +1247,57 @@ def _id_bumpers(core):
                         inner = strip_refs(inner[4][0])          # StringId(x) / RefId(x)
                     same = norm(ret) == norm(v) or norm(inner) == norm(v) or \
                         any(norm(x) == norm(v) for x in mir.walk_expr(ret) if isinstance(x, tuple) and x[0] == "bin")
+                    if not same:
+                        # `self.0 += 1; *self`: the id is re-read from its place - after the store, in program order
+                        same = _reads_after_store(b)
                     okk = same
         out[b.defn] = (bool(okk), b.key)
     return out
+
+
+def _reads_after_store(b):
+    """straight-line body: every read of the `&mut` id argument that can reach the return value happens after the store"""
+    order = []
+    bb, seen = 0, set()
+    while bb is not None and bb not in seen:
+        seen.add(bb)
+        blk = b.blocks[bb]
+        for si, st in enumerate(blk["stmts"]):
+            order.append((bb, si, st))
+        t = blk["term"]
+        bb = t.get("t") if t["k"] in ("goto", "assert", "call", "drop") else None
+    store_at = None
+    reads = []
+    for i, (bb, si, st) in enumerate(order):
+        if st["k"] != "assign":
+            continue
+        pl = st["place"]
+        if pl["local"] == 1 and pl["proj"] and pl["proj"][0]["p"] == "deref" and any(q["p"] == "field" for q in pl["proj"]):
+            store_at = i if store_at is None else store_at
+            continue
+        rv = st["rv"]
+        srcs = [mir.op_place(rv[k]) for k in ("x", "l", "r") if k in rv] + [rv.get("place")] + \
+            [mir.op_place(f) for f in rv.get("fields", [])]
+        for p_ in srcs:
+            if p_ and p_["local"] == 1 and p_["proj"] and p_["proj"][0]["p"] == "deref":
+                # the operand of the increment itself (x.0 + 1) is the read that feeds the store, not the result
+                if rv.get("rv") == "bin" or (store_at is None and any(q["p"] == "field" for q in p_["proj"]) and
+                                             st["place"]["proj"] == [] and _feeds_add(order, i)):
+                    continue
+                reads.append(i)
+    return store_at is not None and bool(reads) and all(i > store_at for i in reads)
+
+
+def _feeds_add(order, i):
+    """the local assigned at position i is only used as an operand of the following checked addition"""
+    tgt = order[i][2]["place"]["local"]
+    for _, _, st in order[i + 1:i + 4]:
+        if st["k"] == "assign" and st["rv"].get("rv") == "bin":
+            for k in ("l", "r"):
+                p_ = mir.op_place(st["rv"].get(k, {}))
+                if p_ and p_["local"] == tgt:
+                    return True
+    return False
 
 
 def _contains(term, keys):
